@@ -44,6 +44,15 @@ def setup_env():
     warnings.filterwarnings("ignore", category=DeprecationWarning)
     import jax
 
+    # both orders in which a user can do it: double precision switched on before the library is
+    # imported, or (as the repository's own tests do) afterwards - module-level constants of the
+    # library are evaluated at import time. The shards of one check alternate (GT_IMPORT_ORDER).
+    lib_first = os.environ.get("GT_IMPORT_ORDER") == "lib-first"
+    if lib_first:
+        import gaussian_toolbox  # noqa: F401
+        from gaussian_toolbox import (approximate_conditional, conditional, factor,  # noqa: F401
+                                      measure, pdf)
+        from gaussian_toolbox.experimental import truncated_measure  # noqa: F401
     jax.config.update("jax_enable_x64", True)
     cache = os.path.join(VERIF, ".jaxcache")
     try:
